@@ -18,6 +18,7 @@
 //	kind 3  consistent fragments of 3..6 small datagrams with small high/low limits (eviction)
 //	kind 4  malformed: random (first,last,more,len), first > last, empty payloads, more=false in the
 //	        middle, lengths inconsistent with last-first+1, small limits now and then
+//	kinds 5-8 and the stress phase: concurrent delivery, see conc.go
 package main
 
 import (
@@ -54,6 +55,7 @@ type opT struct {
 	pl          []byte
 	plSeg       string // Coq rendering of pl
 	burst       int    // now class
+	executed    bool   // concurrent runs: the call was started
 	// outputs
 	done     bool
 	ret      []byte
@@ -713,8 +715,17 @@ func main() {
 	nhash := flag.Int("hash", 100, "number of Hash3Words cases")
 	nmany := flag.Int("many", 200, "number of runs with datagrams of 17..64 (a few ~130) 8-byte pieces")
 	spread := flag.Int("spread", 59, "distance between two runs with a large datagram in the output")
+	concx := flag.Int("concx", 250, "controlled schedules: shapes with more interleavings than this are sampled (0 = enumerate all)")
+	concr := flag.Int("concr", 300, "controlled schedules: random 3-goroutine runs")
+	conce := flag.Int("conce", 120, "controlled schedules: random runs with small memory limits")
+	conct := flag.Int("conct", 40, "controlled schedules: random runs with reassembly timeouts")
+	stressMs := flag.Int("stress", 3000, "uncontrolled stress phase: time budget in ms (0 = none)")
+	stressMax := flag.Int("stressmax", 400000, "uncontrolled stress phase: maximal number of rounds")
 	flag.Parse()
 	r := gen.New(*seed)
+	// uncontrolled stress first, while the schedule-point hook is still nil
+	stressCases, stressRounds := stressPhase(gen.New(*seed+77), time.Duration(*stressMs)*time.Millisecond, *stressMax)
+	fragmentation.VerifSetYield(yieldHook)
 	cases := []*caseT{}
 	add := func(c *caseT) { cases = append(cases, c) }
 	for _, c := range fixedCases() {
@@ -786,6 +797,51 @@ func main() {
 		}(c)
 	}
 	wg.Wait()
+	// controlled concurrent runs (their own PRNG stream, so that the sequential cases of a seed do
+	// not depend on the -conc* flags)
+	rc := gen.New(*seed + 1000003)
+	concs := []*concCase{}
+	genExhaustive2(rc, *concx, func(c *concCase) { concs = append(concs, c) })
+	for i := 0; i < *concr; i++ {
+		concs = append(concs, genRandom3(rc, 6))
+	}
+	for i := 0; i < *conce; i++ {
+		concs = append(concs, genRandom3(rc, 8))
+	}
+	for i, c := range concs {
+		runConc(c, *seed*2000003+uint64(i))
+	}
+	// timeout runs sleep: concurrently, each on its own Fragmentation
+	tconcs := make([]*concCase, *conct)
+	for i := range tconcs {
+		tconcs[i] = genRandom3(rc, 7)
+	}
+	tok := make([]bool, len(tconcs))
+	for i, c := range tconcs {
+		wg.Add(1)
+		sem <- struct{}{}
+		go func(i int, c *concCase) {
+			defer wg.Done()
+			defer func() { <-sem }()
+			for k := 0; k < 5 && !tok[i]; k++ {
+				tok[i] = runConc(c, *seed*3000017+uint64(i))
+				if c.hung {
+					tok[i] = true
+				}
+				if !tok[i] {
+					mu.Lock()
+					retries++
+					mu.Unlock()
+				}
+			}
+		}(i, c)
+	}
+	wg.Wait()
+	for i, c := range tconcs {
+		if tok[i] {
+			concs = append(concs, c)
+		}
+	}
 	w := bufio.NewWriterSize(os.Stdout, 1<<20)
 	defer w.Flush()
 	kinds := map[int]int{}
@@ -819,6 +875,32 @@ func main() {
 		}
 		fmt.Fprintln(w, render(c))
 	}
+	ckinds := map[int]int{}
+	csteps, ccalls, cdone, cpanic, chung := 0, 0, 0, 0, 0
+	for _, c := range append(concs, stressCases...) {
+		if c.stress == 0 {
+			ckinds[c.kind]++
+			csteps += len(c.steps)
+		}
+		if c.hung {
+			chung++
+		}
+		for _, p := range c.progs {
+			for i := range p {
+				switch statusOf(&p[i]) {
+				case 0:
+					ccalls++
+				case 1:
+					ccalls++
+					cdone++
+				case 2:
+					ccalls++
+					cpanic++
+				}
+			}
+		}
+		fmt.Fprintln(w, renderConc(c))
+	}
 	for i := 0; i < *nhash; i++ {
 		var a, b, c, iv uint32
 		if i < 8 {
@@ -831,4 +913,6 @@ func main() {
 	}
 	fmt.Fprintf(w, "# runs by kind: %v; calls %d, delivered %d, panicked %d; datagram sizes %v (max %d); timing retries %d\n",
 		kinds, nops, ndone, npanic, sizes, maxLen, retries)
+	fmt.Fprintf(w, "# concurrent: controlled runs by kind %v, %d steps; %d calls in controlled runs and distinct stress outcomes, delivered %d, panicked %d, hung %d; uncontrolled stress: %d rounds, %d distinct outcomes\n",
+		ckinds, csteps, ccalls, cdone, cpanic, chung, stressRounds, len(stressCases))
 }
